@@ -13,10 +13,13 @@ pub struct Universe {
 	pub pool: Pool,
 	pub bsm: Vec<(u16, Vec<u16>)>,
 	pub this: u16, pub sup: u16, pub desc_v: u16,
-	pub a_code: u16, pub a_lines: u16, pub a_lvt: u16, pub a_lvtt: u16, pub a_smt: u16, pub a_bsm: u16,
+	pub a_code: u16, pub a_lines: u16, pub a_lvt: u16, pub a_lvtt: u16, pub a_smt: u16, pub a_smap: u16, pub a_bsm: u16,
 	pub name_x: u16, pub desc_i: u16, pub sig_t: u16,
 	/// referencable indices per operand kind 0..=6 (numbering of Opcodes.v)
 	pub by_kind: Vec<Vec<u16>>,
+	/// entries no valid instruction refers to: Module, Package, MethodHandles with reference_kind 0 and 10, a Dynamic
+	/// that is its own bootstrap argument, a Dynamic / InvokeDynamic whose bootstrap method does not exist
+	pub extra: Vec<u16>,
 }
 
 fn filler(rng: &mut Rng, p: &mut Pool, n: usize) {
@@ -40,9 +43,9 @@ pub fn build_universe(rng: &mut Rng, big: bool) -> Universe {
 	let sup = p.class("java/lang/Object");
 	let desc_v = p.utf8("()V");
 	let a_code = p.utf8("Code"); let a_lines = p.utf8("LineNumberTable"); let a_lvt = p.utf8("LocalVariableTable");
-	let a_lvtt = p.utf8("LocalVariableTypeTable"); let a_smt = p.utf8("StackMapTable"); let a_bsm = p.utf8("BootstrapMethods");
+	let a_lvtt = p.utf8("LocalVariableTypeTable"); let a_smt = p.utf8("StackMapTable"); let a_smap = p.utf8("StackMap"); let a_bsm = p.utf8("BootstrapMethods");
 	let name_x = p.utf8("x"); let desc_i = p.utf8("I"); let sig_t = p.utf8("TT;");
-	for n in ["m0", "ConstantValue", "SourceFile"] { p.utf8(n); }   // names of the vehicle classes of stream_pool
+	for n in ["m0", "ConstantValue", "SourceFile", "EnclosingMethod", "Module", "ModulePackages", "AnnotationDefault"] { p.utf8(n); }   // names of the vehicle classes of stream_pool
 	let mut by_kind: Vec<Vec<u16>> = vec![vec![]; 7];
 	// the groups are created in a random order (one aspect of pool layout)
 	let mut groups: Vec<u8> = vec![0, 1, 2, 3, 4, 5];
@@ -100,7 +103,16 @@ pub fn build_universe(rng: &mut Rng, big: bool) -> Universe {
 	fill(rng, &mut p);
 	for i in 0..per { let nt = p.nt(&format!("indy{i}"), *rng.pick(&mdescs[..])); let x = p.add(PE::Indy(rng.below(3) as u16, nt)); by_kind[5].push(x); }
 	fill(rng, &mut p);
-	Universe { pool: p, bsm, this, sup, desc_v, a_code, a_lines, a_lvt, a_lvtt, a_smt, a_bsm, name_x, desc_i, sig_t, by_kind }
+	let mut extra = vec![];
+	let n = p.utf8("mod.name"); extra.push(p.add(PE::Module(n)));
+	let n = p.utf8("pkg/name"); extra.push(p.add(PE::Package(n)));
+	extra.push(p.add(PE::Handle(0, by_kind[1][0]))); extra.push(p.add(PE::Handle(10, by_kind[2][0])));
+	// bootstrap method 3 has the Dynamic entry that uses it as its argument
+	let nt = p.nt("self", "I"); let d_self = p.add(PE::Dynamic(bsm.len() as u16, nt)); bsm.push((handles[0], vec![d_self])); extra.push(d_self);
+	let nt = p.nt("nobsm", "I"); extra.push(p.add(PE::Dynamic(99, nt)));
+	let nt = p.nt("nobsm", "()V"); extra.push(p.add(PE::Indy(99, nt)));
+	let nt = p.nt("viah", "()V"); extra.push(p.add(PE::Indy(0, nt)));      // stream_accessors: the last extra entry
+	Universe { pool: p, bsm, this, sup, desc_v, extra, a_code, a_lines, a_lvt, a_lvtt, a_smt, a_smap, a_bsm, name_x, desc_i, sig_t, by_kind }
 }
 
 impl Universe {
@@ -162,7 +174,11 @@ pub enum VT { Top, Int, Float, Double, Long, Null, UninitThis, Object(u16), Unin
 #[derive(Clone, Debug)]
 pub enum FK { Same, Same1(VT), Chop(u8), Append(Vec<VT>), Full(Vec<VT>, Vec<VT>) }
 #[derive(Clone, Debug)]
-pub enum CA { Lines(Vec<(usize, u16)>), Lvt(Vec<(usize, usize)>), Lvtt(Vec<(usize, usize)>), Smt(Vec<(usize, FK, bool)>) }
+pub enum CA {
+	Lines(Vec<(usize, u16)>), Lvt(Vec<(usize, usize)>), Lvtt(Vec<(usize, usize)>), Smt(Vec<(usize, FK, bool)>),
+	/// the CLDC `StackMap` attribute: (instruction, locals, stack) per entry, in FILE order (the format does not order them)
+	Smap(Vec<(usize, Vec<VT>, Vec<VT>)>),
+}
 
 pub struct MethodGen {
 	pub body: Vec<Insn<usize>>, pub ch: Vec<Choice>, pub code: Vec<u8>, pub lay: Vec<usize>,
@@ -178,8 +194,8 @@ fn gen_vt(rng: &mut Rng, u: &Universe, n: usize) -> VT {
 /// (goto/jsr) — conditional branches are retargeted to the instruction itself
 pub fn choose(rng: &mut Rng, body: &mut Vec<Insn<usize>>) -> Vec<Choice> {
 	let mut ch: Vec<Choice> = body.iter().map(|i| match i {
-		Insn::Gen(c, ops) => { let fs = forms_of(*c, ops); Choice { form: *rng.pick(&fs), fill: rng.next() as u8 } }
-		_ => Choice { form: Form::Plain(0), fill: rng.next() as u8 },
+		Insn::Gen(c, ops) => { let fs = forms_of(*c, ops); Choice { form: *rng.pick(&fs), fill: [rng.next() as u8, rng.next() as u8, rng.next() as u8] } }
+		_ => Choice { form: Form::Plain(0), fill: [rng.next() as u8, rng.next() as u8, rng.next() as u8] },
 	}).collect();
 	loop {
 		let lay = layout(&ch, body);
@@ -274,7 +290,22 @@ impl MethodGen {
 				}
 				(u.a_smt, o)
 			}
+			CA::Smap(fs) => {
+				let mut o = vec![]; o.extend((fs.len() as u16).to_be_bytes());
+				for (k, l, st) in fs {
+					o.extend((lay[*k] as u16).to_be_bytes());
+					o.extend((l.len() as u16).to_be_bytes()); for v in l { vt_bytes(v, lay, &mut o); }
+					o.extend((st.len() as u16).to_be_bytes()); for v in st { vt_bytes(v, lay, &mut o); }
+				}
+				(u.a_smap, o)
+			}
 		}).collect()
+	}
+	/// the entries of a StackMap attribute in the order of their bytecode offsets (stable)
+	fn smap_sorted(fs: &[(usize, Vec<VT>, Vec<VT>)]) -> Vec<&(usize, Vec<VT>, Vec<VT>)> {
+		let mut v: Vec<&(usize, Vec<VT>, Vec<VT>)> = fs.iter().collect();
+		v.sort_by_key(|x| x.0);
+		v
 	}
 	fn uninit_points(&self) -> Vec<usize> {
 		let mut v = vec![];
@@ -282,21 +313,25 @@ impl MethodGen {
 		for a in &self.attrs { if let CA::Smt(fs) = a { for (_, fk, _) in fs { match fk {
 			FK::Same | FK::Chop(_) => {}, FK::Same1(x) => vt(x), FK::Append(xs) => xs.iter().for_each(&mut vt), FK::Full(l, s) => { l.iter().for_each(&mut vt); s.iter().for_each(&mut vt); }
 		} } } }
+		for a in &self.attrs { if let CA::Smap(fs) = a { for (_, l, s) in Self::smap_sorted(fs) { l.iter().for_each(&mut vt); s.iter().for_each(&mut vt); } } }
 		v
 	}
 	/// the Coq `code_in` of this method, and its catch_type list
 	pub fn g_code_in(&self) -> String {
 		let lay = &self.lay;
 		let mut lines = vec![]; let mut ranges = vec![]; let mut deltas = vec![];
+		let mut cldc: Option<Vec<String>> = None;
 		for a in &self.attrs { match a {
 			CA::Lines(ls) => for (k, l) in ls { lines.push(format!("({}, {l})", lay[*k])); },
 			CA::Lvt(rs) | CA::Lvtt(rs) => for (s, e) in rs { ranges.push(format!("({}, {})", lay[*s], lay[*e] - lay[*s])); },
 			CA::Smt(fs) => { let mut prev: Option<usize> = None; for (k, _, _) in fs { let off = lay[*k]; deltas.push(match prev { None => off, Some(p) => off - p - 1 }.to_string()); prev = Some(off); } }
+			CA::Smap(fs) => { cldc = Some(fs.iter().map(|(k, _, _)| lay[*k].to_string()).collect()); }
 		} }
-		format!("({{| ci_code := {}; ci_exc := [{}]; ci_lines := [{}]; ci_ranges := [{}]; ci_frames := [{}]; ci_points := [{}] |}}, [{}])",
+		format!("({{| ci_code := {}; ci_exc := [{}]; ci_lines := [{}]; ci_ranges := [{}]; ci_frames := [{}]; ci_cldc := {}; ci_points := [{}] |}}, [{}])",
 			glist_rle(&self.code.iter().map(|b| b.to_string()).collect::<Vec<_>>()),
 			self.exc.iter().map(|(s, e, h, _)| format!("({}, {}, {})", lay[*s], lay[*e], lay[*h])).collect::<Vec<_>>().join("; "),
 			lines.join("; "), ranges.join("; "), deltas.join("; "),
+			match &cldc { None => "None".to_string(), Some(v) => format!("(Some [{}])", v.join("; ")) },
 			self.uninit_points().iter().map(|k| lay[*k].to_string()).collect::<Vec<_>>().join("; "),
 			self.exc.iter().map(|x| x.3.to_string()).collect::<Vec<_>>().join("; "))
 	}
@@ -312,6 +347,8 @@ impl MethodGen {
 			CA::Lines(ls) => for (k, l) in ls { refs.insert(*k); s.lines.push((Some(*k), *l)); },
 			CA::Lvt(rs) | CA::Lvtt(rs) => for (a, b) in rs { refs.insert(*a); refs.insert(*b); s.ranges.push((Some(*a), Some(*b))); },
 			CA::Smt(fs) => for (j, (k, _, _)) in fs.iter().enumerate() { refs.insert(*k); frame_at[*k] = Some(j); },
+			// CLDC StackMap: the entries are not ordered in the file; each belongs to the instruction at its offset
+			CA::Smap(fs) => for (j, (k, _, _)) in Self::smap_sorted(fs).into_iter().enumerate() { refs.insert(*k); frame_at[*k] = Some(j); },
 		} }
 		for k in self.uninit_points() { refs.insert(k); s.points.push(Some(k)); }
 		for (k, i) in self.body.iter().enumerate() {
@@ -353,7 +390,12 @@ pub fn class_of(u: &Universe, ms: &[MethodGen], pool: &mut Pool) -> Vec<u8> {
 }
 
 pub enum Outcome { Ok(Vec<XSem>), Err, Panic(String) }
+/// breadcrumb: the class file about to be handed to duke (a stack overflow / abort / endless loop kills the harness)
+pub fn crumb_class(bytes: &[u8]) {
+	fbh::report::crumb(&format!("property C01\nwhat: duke::read_class does not return on this class file (the harness process died or timed out while reading it)\nclass file (hex): {}\n", hex(bytes)));
+}
 pub fn read_with_duke(bytes: &[u8]) -> Outcome {
+	crumb_class(bytes);
 	let b = bytes.to_vec();
 	match guarded(move || duke::read_class(&mut Cursor::new(b)).ok()) {
 		Err(p) => Outcome::Panic(p),
@@ -425,6 +467,61 @@ fn stream_generated(ctx: &Ctx, r: &mut Report, rng: &mut Rng) {
 	}
 }
 
+/// CLDC `StackMap` attributes (class files of J2ME / preverified classes, version <= 49 or any): one
+/// full frame per entry at an absolute offset, entries in any order.  Frames sit where stack maps are
+/// needed: on branch targets (whose labels the first pass has already created, in the order of the
+/// branching instructions) and elsewhere.
+fn stream_cldc(ctx: &Ctx, r: &mut Report, rng: &mut Rng) {
+	let u = build_universe(rng, false);
+	for it in 0..(if ctx.thorough { 120 } else { 30 }) {
+		let n = rng.range(2, 16);
+		let mut m = gen_method(rng, &u, n, true);
+		// every 7th class also has a StackMapTable attribute: both fill the same slot, the class is refused
+		let both = it % 7 == 6;
+		if !both { m.attrs.retain(|a| !matches!(a, CA::Smt(_))); } else if !m.attrs.iter().any(|a| matches!(a, CA::Smt(_))) { m.attrs.push(CA::Smt(vec![])); }
+		let mut at: BTreeSet<usize> = BTreeSet::new();
+		let targets: Vec<usize> = m.body.iter().flat_map(|i| i.targets()).filter(|t| *t < n).collect();
+		for _ in 0..rng.range(1, 5) { at.insert(if !targets.is_empty() && rng.chance(2, 3) { *rng.pick(&targets) } else { rng.below(n) }); }
+		let mut fs: Vec<(usize, Vec<VT>, Vec<VT>)> = at.into_iter().map(|k| (k, (0..rng.below(3)).map(|_| gen_vt(rng, &u, n)).collect(), (0..rng.below(3)).map(|_| gen_vt(rng, &u, n)).collect())).collect();
+		let order = it % 3;     // 0: ascending offsets (what a preverifier writes), 1: descending, 2: shuffled
+		if order == 1 { fs.reverse(); } else if order == 2 { rng.shuffle(&mut fs); }
+		r.count(&format!("cldc_stackmap_order{order}_frames{}", fs.len().min(3)));
+		let pos = rng.below(m.attrs.len() + 1);
+		m.attrs.insert(pos, CA::Smap(fs));
+		let mut pool = u.pool.clone();
+		let name = pool.utf8("m0");
+		let exc: Vec<(u16, u16, u16, u16)> = m.exc.iter().map(|(s, e, h, c)| (m.lay[*s] as u16, m.lay[*e] as u16, m.lay[*h] as u16, *c)).collect();
+		let members = vec![Member { access: 0x0009, name, desc: u.desc_v, attrs: vec![(u.a_code, code_attr(10, 10, &m.code, &exc, &m.code_attrs(&u)))] }];
+		let major = *rng.pick(&[45u16, 47, 48, 49, 50, 52]);
+		let bytes = class_bytes(&pool, if major == 45 { 3 } else { 0 }, major, 0x0021, u.this, u.sup, &[], &[], &members, &[u.bsm_attr()]);
+		let truth = m.truth(&u);
+		let canon = hex(&bytes);
+		r.eval(&canon, true);
+		if both {
+			r.count("cldc_stackmap_and_stackmaptable");
+			fbh::report::crumb(&format!("property C01\nwhat: read_class does not return on a class with a StackMap and a StackMapTable attribute\nclass file (hex): {canon}\n"));
+			crate::cfile::file_case(r, "file-cldc", &bytes);
+			continue;
+		}
+		let replay = |what: &str| format!("property C01\nwhat: {what}\nthe method's Code attribute carries a CLDC StackMap attribute (entries in {} order)\nclass file (hex): {canon}\n", ["ascending", "descending", "shuffled"][order]);
+		fbh::report::crumb(&replay("read_class does not return on this class"));
+		let got = read_with_duke(&bytes);
+		match &got {
+			Outcome::Panic(p) => r.violation(format!("duke::read_class panicked on a class with a StackMap attribute: {p}"), replay("read_class panics")),
+			Outcome::Err => r.violation("duke::read_class rejects a valid class with a StackMap attribute".into(), replay("read_class returns Err on this valid class")),
+			Outcome::Ok(v) => if v.len() != 1 || v[0] != truth {
+				let d = if v.len() == 1 { first_diff(&v[0], &truth) } else { "wrong number of methods".into() };
+				r.violation(format!("StackMap attribute: {d}"), replay(&format!("the frames of the StackMap attribute are not delivered on the instructions at their offsets: {d}")));
+			},
+		}
+		let res = match &got { Outcome::Ok(v) => format!("(Ok [{}])", v.iter().map(g_xsem).collect::<Vec<_>>().join("; ")), _ => "Err".into() };
+		if !matches!(got, Outcome::Panic(_)) {
+			r.case("cldc-stackmap", format!("CClass {} {} [{}] {}", pool.gallina(), g_bsm(&u.bsm), m.g_code_in(), res));
+		}
+		crate::cfile::file_case(r, "file-cldc", &bytes);
+	}
+}
+
 /// known findings are recognised here, as narrowly as the defect; everything else is a violation
 fn classify_or_violate(r: &mut Report, what: String, replay: String) {
 	r.violation(what, replay);
@@ -438,6 +535,7 @@ fn pool_queries(u: &Universe, rng: &mut Rng) -> Vec<(u8, u16)> {
 	for kind in 0..=8u8 {
 		// the right kind, every other kind's entries (wrong kind), 0, the last index, beyond the pool
 		let mut idxs: Vec<u16> = vec![0, count - 1, count, 65535];
+		idxs.extend(u.extra.iter().copied());
 		for k in 0..7 { for &i in &u.by_kind[k] { if k as u8 == kind || rng.chance(1, 6) { idxs.push(i); } } }
 		// second slots of Long/Double
 		for (e, &i) in u.pool.entries.iter().zip(&u.pool.index) { if matches!(e, PE::Long(_) | PE::Double(_)) && rng.chance(1, 8) { idxs.push(i + 1); } }
@@ -462,7 +560,7 @@ fn duke_resolve(u: &Universe, kind: u8, idx: u16) -> Result<Option<CVal>, String
 			};
 			let body = vec![ins, Insn::Gen(177, vec![])];
 			let form = match kind { 0 => Form::Plain(0x13), 1 => Form::Plain(178), 2 => Form::Plain(182), 3 => Form::Plain(184), 4 => Form::Plain(185), 5 => Form::Plain(186), _ => Form::Plain(187) };
-			let ch = vec![Choice { form, fill: if kind == 4 { 1 } else { 0 } }, Choice { form: Form::Plain(177), fill: 0 }];
+			let ch = vec![Choice { form, fill: [if kind == 4 { 1 } else { 0 }, 0, 0] }, Choice { form: Form::Plain(177), fill: [0; 3] }];
 			let code = encode(&ch, &body).expect("vehicle encodes");
 			(vec![], vec![Member { access: 9, name, desc: u.desc_v, attrs: vec![(u.a_code, code_attr(4, 4, &code, &[], &[]))] }], vec![u.bsm_attr()])
 		}
@@ -470,6 +568,7 @@ fn duke_resolve(u: &Universe, kind: u8, idx: u16) -> Result<Option<CVal>, String
 		_ => { let sf = pool.utf8("SourceFile"); (vec![], vec![], vec![(sf, idx.to_be_bytes().to_vec())]) }
 	};
 	let bytes = class_bytes(&pool, 0, 61, 0x21, u.this, u.sup, &[], &fields, &methods, &attrs);
+	crumb_class(&bytes);
 	guarded(move || {
 		let Ok(c) = duke::read_class(&mut Cursor::new(bytes)) else { return None };
 		match kind {
@@ -577,6 +676,7 @@ fn stream_unknown(ctx: &Ctx, r: &mut Report, rng: &mut Rng) {
 		};
 		let bytes = class_bytes(&pool, 0, 52, 0x0421, this, sup, &[], &fields, &methods, &cattrs);
 		let b2 = bytes.clone();
+		crumb_class(&bytes);
 		let got = guarded(move || duke::read_class(&mut Cursor::new(b2)).ok().map(|c| {
 			let a = match ctxn { 0 => c.attributes.clone(), 1 => c.fields[0].attributes.clone(), 2 => c.methods[0].attributes.clone(), _ => c.methods[0].code.as_ref().map(|c| c.attributes.clone()).unwrap_or_default() };
 			a.into_iter().map(|x| (fbh::gal::cps(&x.name), x.bytes)).collect::<Vec<_>>()
@@ -611,7 +711,7 @@ fn stream_broken(ctx: &Ctx, r: &mut Report, rng: &mut Rng) {
 		match kind {
 			0 => { let i = rng.below(clen); m.code[i] = rng.next() as u8; }                       // any byte changed
 			1 => { m.code.truncate(rng.range(1, clen)); }                                        // truncated
-			2 => { let i = rng.below(clen); m.code[i] = *rng.pick(&[0xcau8, 0xfe, 0xff, 0xcb, 0xc4]); }   // reserved opcode / stray wide
+			2 => { let i = rng.below(clen); m.code[i] = *rng.pick(&[0xcau8, 0xfe, 0xff, 0xcb, 0xc4]); if rng.chance(1, 3) { m.code[0] = 0xc4; if clen > 1 { m.code[1] = *rng.pick(&[0u8, 0xc4, 0xa7, 0xb1]); } } }   // reserved opcode / stray wide / wide before an opcode that has no wide form
 			3 => { m.lay.push(clen + rng.range(0, 3)); m.exc.push((0, n, n + 1, 0)); }             // handler at or past the end
 			4 => { m.lay.push(clen + 1 + rng.below(3)); m.exc.push((0, n + 1, 0, 0)); }            // end past the end
 			5 => { m.lay.push(clen + rng.below(2)); m.attrs.push(CA::Lines(vec![(n + 1, 7)])); }   // line number at / past the end
@@ -638,13 +738,13 @@ fn stream_code_length(ctx: &Ctx, r: &mut Report, rng: &mut Rng) {
 	let _ = ctx;
 	for len in lens {
 		let (body, ch): (Vec<Insn<usize>>, Vec<Choice>) = if len < 6 {
-			((0..len).map(|_| Insn::Gen(177, vec![])).collect(), (0..len).map(|_| Choice { form: Form::Plain(177), fill: 0 }).collect())
+			((0..len).map(|_| Insn::Gen(177, vec![])).collect(), (0..len).map(|_| Choice { form: Form::Plain(177), fill: [0; 3] }).collect())
 		} else {
 			// nop … nop; goto_w 0; return
 			let mut b: Vec<Insn<usize>> = (0..len - 6).map(|_| Insn::Gen(0, vec![])).collect();
-			let mut c: Vec<Choice> = (0..len - 6).map(|_| Choice { form: Form::Plain(0), fill: 0 }).collect();
-			b.push(Insn::Gen(167, vec![Op::T(0)])); c.push(Choice { form: Form::Plain(0xc8), fill: 0 });
-			b.push(Insn::Gen(177, vec![])); c.push(Choice { form: Form::Plain(177), fill: 0 });
+			let mut c: Vec<Choice> = (0..len - 6).map(|_| Choice { form: Form::Plain(0), fill: [0; 3] }).collect();
+			b.push(Insn::Gen(167, vec![Op::T(0)])); c.push(Choice { form: Form::Plain(0xc8), fill: [0; 3] });
+			b.push(Insn::Gen(177, vec![])); c.push(Choice { form: Form::Plain(177), fill: [0; 3] });
 			(b, c)
 		};
 		let lay = layout(&ch, &body);
@@ -680,6 +780,7 @@ fn stream_header(_ctx: &Ctx, r: &mut Report, rng: &mut Rng) {
 		let mut bytes = class_bytes(&pool, minor, major, 0x21, this, sup, &[], &[], &[], &[]);
 		bytes[0..4].copy_from_slice(&mg.to_be_bytes());
 		let b2 = bytes.clone();
+		crumb_class(&bytes);
 		let got = guarded(move || duke::read_class(&mut Cursor::new(b2)).is_ok());
 		// JVMS 4.1: magic 0xCAFEBABE; versions 45.0 .. 67.0 (the property's range), minor 0 or 65535 from major 56 on
 		let valid = mg == 0xCAFEBABE && (45..=67).contains(&major) && (major < 56 || minor == 0 || (minor == 65535 && major < 67));
@@ -706,12 +807,16 @@ pub fn run_all(ctx: &Ctx, r: &mut Report) -> anyhow::Result<()> {
 	stream_broken(ctx, r, &mut rng.fork(5));
 	stream_header(ctx, r, &mut rng.fork(7));
 	stream_code_length(ctx, r, &mut rng.fork(8));
+	stream_cldc(ctx, r, &mut rng.fork(11));
+	crate::pstreams::stream_accessors(ctx, r, &mut rng.fork(12));
+	crate::pstreams::stream_bad_tags(r);
 	crate::fstreams::stream_spec_knobs(ctx, r, &mut rng.fork(6));
 	crate::fstreams::stream_boundary(ctx, r);
 	crate::fstreams::stream_corpus(ctx, r);
 	crate::cfile::stream_witnesses(r);
 	crate::cfile::stream_files(ctx, r, &mut rng.fork(9));
 	crate::cfile::stream_nesting(r);
+	crate::cfile::stream_annotation_matrix(r);
 	crate::cfile::stream_damaged(ctx, r, &mut rng.fork(10));
 	Ok(())
 }
